@@ -625,8 +625,8 @@ func (c *Cholesky) SymRankOne(orig *Cholesky, alpha float64, x Vector) (ok bool)
 	if rv, ok := x.(RawVectorer); ok {
 		xmat = rv.RawVector()
 	} else {
-		var tmp *VecDense
-		tmp.CopyVec(x)
+		var tmp VecDense
+		tmp.CloneFromVec(x)
 		xmat = tmp.RawVector()
 	}
 	blas64.Copy(xmat, blas64.Vector{N: n, Data: work, Inc: 1})
